@@ -1,7 +1,870 @@
-//! C33 — not implemented yet (see DESIGN.md section 4).
-use kit::Run;
-use serde_json::Value;
+//! C33 — CAWG identity assertions bind exactly the referenced assertions.
+//!
+//! S-inp. A tiny JPEG is signed with an X.509 identity assertion over every subset of 3 referenceable custom assertions
+//! (`create_signer::from_x509_identity`, and the same flow re-assembled from the public identity builder API so that a
+//! tampering step can be inserted). Tampering happens BEFORE the C2PA claim is signed (the C2PA manifest stays intact):
+//! a wrapping `DynamicAssertion` takes the genuine identity assertion CBOR and
+//!   * alters byte k of the identity signature (COSE_Sign1) for EVERY k,
+//!   * alters the signer payload (hash / url of every referenced entry, drop / add / duplicate an entry, sig_type, role),
+//!   * signs an ALTERED payload validly with the identity credential (the "referenced assertion changed" situation:
+//!     hash or url of an entry no longer matches the claim, hard binding dropped, entry duplicated),
+//!   * sets every single byte of pad1 / pad2 to a non-zero value, or re-distributes the (all-zero) padding,
+//!   * damages the assertion structure (field renamed / retyped) while keeping it the same length,
+//! always re-padding so that the assertion keeps its reserved size. Each result is read twice: through the default
+//! Reader (identity assertions validated while parsing) and with `core.decode_identity_assertions=false` +
+//! `Reader::post_validate_async(CawgValidator)` driven by a hand-rolled block_on.
+//! Oracle: untampered => a cawg.* success code and no cawg.* failure; each tampering => some cawg.* failure code;
+//! the C2PA state is Valid/Trusted in all cases.
+//!
+//! Mutants caught (tools/mutant_run.sh I <diff> C33 quick):
+//!   /verif/mutants/C33-partial-claim-labels-only.diff (check_against_partial_claim compares only labels)
+//!   /verif/mutants/C33-padding-unchecked.diff         (check_padding accepts any bytes)
 
-pub fn run(_run: &Run, _replay: Option<&Value>) {
-    kit::ev::machinery("C33: check not implemented");
+use c2pa::{
+    dynamic_assertion::{DynamicAssertion, DynamicAssertionContent, PartialClaim},
+    identity::{
+        builder::{CredentialHolder, IdentityAssertionBuilder, IdentityBuilderError},
+        validator::CawgValidator,
+        x509::X509CredentialHolder,
+        SignerPayload,
+    },
+    Builder, BuilderIntent, HashedUri, RawSigner, RawSignerError, Reader, Signer, SigningAlg,
+};
+use kit::{cbor, cbor::V, par, sdk, Run};
+use serde_json::{json, Value};
+use std::{io::Cursor, sync::Mutex};
+
+const MIME: &str = "image/jpeg";
+const REFS: [&str; 3] = ["org.verif.r0", "org.verif.r1", "org.verif.r2"];
+const C2PA_ALG: &str = "ed25519";
+const ID_ALG: &str = "ed25519";
+
+fn definition() -> String {
+    json!({"title":"cawg","claim_generator_info":[{"name":"verif","version":"1"}],
+        "assertions":[
+            {"label":REFS[0],"data":{"v":"zero"}},
+            {"label":REFS[1],"data":{"v":"one"}},
+            {"label":REFS[2],"data":{"v":"two"}},
+            {"label":"org.verif.unreferenced","data":{"v":"other"}}
+        ]})
+    .to_string()
+}
+
+// ---------------------------------------------------------------------------------------------------
+// tampering alphabet
+// ---------------------------------------------------------------------------------------------------
+#[derive(Clone, Debug, PartialEq)]
+enum Tamper {
+    None,
+    /// re-encode the payload through the harness codec without changing it (harness control)
+    ReencodeOnly,
+    SigByte { k: usize, x: u8 },
+    /// after-signature edits of the signer payload
+    PayloadHashFlip { j: usize },
+    PayloadUrlSwap { j: usize },
+    PayloadDrop { j: usize },
+    PayloadAddUnreferenced,
+    PayloadDuplicate { j: usize },
+    PayloadSigType,
+    PayloadAddRole,
+    /// validly signed altered payloads
+    SignedHashFlip { j: usize },
+    SignedUrlUnknown { j: usize },
+    SignedDropHardBinding,
+    SignedDuplicate { j: usize },
+    Pad1Byte { j: usize },
+    Pad2Byte { j: usize },
+    /// move n zero bytes from pad1 to pad2 (still all zero): no expectation, recorded
+    PadShift { n: usize },
+    /// same-length structural damage
+    RenameKey { key: &'static str },
+    RetypeSignatureAsText,
+    RetypePad1AsText,
+}
+
+impl Tamper {
+    fn class(&self) -> String {
+        match self {
+            Tamper::None => "none".into(),
+            Tamper::ReencodeOnly => "reencode-only".into(),
+            Tamper::SigByte { .. } => "sigbyte".into(),
+            Tamper::PayloadHashFlip { .. } => "payload-hash".into(),
+            Tamper::PayloadUrlSwap { .. } => "payload-url".into(),
+            Tamper::PayloadDrop { .. } => "payload-drop".into(),
+            Tamper::PayloadAddUnreferenced => "payload-add".into(),
+            Tamper::PayloadDuplicate { .. } => "payload-duplicate".into(),
+            Tamper::PayloadSigType => "payload-sigtype".into(),
+            Tamper::PayloadAddRole => "payload-role".into(),
+            Tamper::SignedHashFlip { .. } => "signed-hash-mismatch".into(),
+            Tamper::SignedUrlUnknown { .. } => "signed-url-not-in-claim".into(),
+            Tamper::SignedDropHardBinding => "signed-no-hard-binding".into(),
+            Tamper::SignedDuplicate { .. } => "signed-duplicate".into(),
+            Tamper::Pad1Byte { .. } => "pad1".into(),
+            Tamper::Pad2Byte { .. } => "pad2".into(),
+            Tamper::PadShift { .. } => "pad-shift".into(),
+            Tamper::RenameKey { key } => format!("rename-{key}"),
+            Tamper::RetypeSignatureAsText => "signature-as-text".into(),
+            Tamper::RetypePad1AsText => "pad1-as-text".into(),
+        }
+    }
+    fn to_json(&self) -> Value {
+        match self {
+            Tamper::SigByte { k, x } => json!({"t":"sigbyte","k":k,"x":x}),
+            Tamper::PayloadHashFlip { j } => json!({"t":"payload-hash","j":j}),
+            Tamper::PayloadUrlSwap { j } => json!({"t":"payload-url","j":j}),
+            Tamper::PayloadDrop { j } => json!({"t":"payload-drop","j":j}),
+            Tamper::PayloadDuplicate { j } => json!({"t":"payload-duplicate","j":j}),
+            Tamper::SignedHashFlip { j } => json!({"t":"signed-hash-mismatch","j":j}),
+            Tamper::SignedUrlUnknown { j } => json!({"t":"signed-url-not-in-claim","j":j}),
+            Tamper::SignedDuplicate { j } => json!({"t":"signed-duplicate","j":j}),
+            Tamper::Pad1Byte { j } => json!({"t":"pad1","j":j}),
+            Tamper::Pad2Byte { j } => json!({"t":"pad2","j":j}),
+            Tamper::PadShift { n } => json!({"t":"pad-shift","n":n}),
+            Tamper::RenameKey { key } => json!({"t":"rename","key":key}),
+            other => json!({"t": other.class()}),
+        }
+    }
+    fn from_json(v: &Value) -> Option<Tamper> {
+        let j = v["j"].as_u64().unwrap_or(0) as usize;
+        Some(match v["t"].as_str()? {
+            "none" => Tamper::None,
+            "reencode-only" => Tamper::ReencodeOnly,
+            "sigbyte" => Tamper::SigByte { k: v["k"].as_u64()? as usize, x: v["x"].as_u64()? as u8 },
+            "payload-hash" => Tamper::PayloadHashFlip { j },
+            "payload-url" => Tamper::PayloadUrlSwap { j },
+            "payload-drop" => Tamper::PayloadDrop { j },
+            "payload-add" => Tamper::PayloadAddUnreferenced,
+            "payload-duplicate" => Tamper::PayloadDuplicate { j },
+            "payload-sigtype" => Tamper::PayloadSigType,
+            "payload-role" => Tamper::PayloadAddRole,
+            "signed-hash-mismatch" => Tamper::SignedHashFlip { j },
+            "signed-url-not-in-claim" => Tamper::SignedUrlUnknown { j },
+            "signed-no-hard-binding" => Tamper::SignedDropHardBinding,
+            "signed-duplicate" => Tamper::SignedDuplicate { j },
+            "pad1" => Tamper::Pad1Byte { j },
+            "pad2" => Tamper::Pad2Byte { j },
+            "pad-shift" => Tamper::PadShift { n: v["n"].as_u64()? as usize },
+            "rename" => Tamper::RenameKey {
+                key: match v["key"].as_str()? {
+                    "signature" => "signature",
+                    "signer_payload" => "signer_payload",
+                    "sig_type" => "sig_type",
+                    "referenced_assertions" => "referenced_assertions",
+                    "pad1" => "pad1",
+                    _ => return None,
+                },
+            },
+            "signature-as-text" => Tamper::RetypeSignatureAsText,
+            "pad1-as-text" => Tamper::RetypePad1AsText,
+            _ => return None,
+        })
+    }
+    fn is_signed_variant(&self) -> bool {
+        matches!(self, Tamper::SignedHashFlip { .. } | Tamper::SignedUrlUnknown { .. } | Tamper::SignedDropHardBinding | Tamper::SignedDuplicate { .. } | Tamper::ReencodeOnly)
+    }
+}
+
+// ---------------------------------------------------------------------------------------------------
+// signer plumbing
+// ---------------------------------------------------------------------------------------------------
+struct RawFromSigner(Box<dyn Signer + Send + Sync>);
+impl RawSigner for RawFromSigner {
+    fn sign(&self, data: &[u8]) -> Result<Vec<u8>, RawSignerError> {
+        self.0.sign(data).map_err(|e| RawSignerError::InternalError(e.to_string()))
+    }
+    fn alg(&self) -> SigningAlg {
+        self.0.alg()
+    }
+    fn max_signature_size(&self) -> usize {
+        self.0.reserve_size()
+    }
+}
+
+fn identity_holder() -> X509CredentialHolder {
+    let s = sdk::fixture_signer(ID_ALG);
+    let chain = s.certs().unwrap_or_else(|e| kit::ev::machinery(format!("identity certs: {e:?}")));
+    X509CredentialHolder::from_raw_signer(Box::new(RawFromSigner(s)), chain)
+}
+
+/// Edit of the referenced-assertion list shared by the struct side (what gets signed) and the CBOR side (what is stored).
+fn edit_refs_struct(t: &Tamper, p: &mut SignerPayload) {
+    let n = p.referenced_assertions.len();
+    match t {
+        Tamper::SignedHashFlip { j } if *j < n => {
+            let e = p.referenced_assertions[*j].clone();
+            let mut h = e.hash();
+            h[0] ^= 1;
+            p.referenced_assertions[*j] = HashedUri::new(e.url(), e.alg(), &h);
+        }
+        Tamper::SignedUrlUnknown { j } if *j < n => {
+            let e = p.referenced_assertions[*j].clone();
+            p.referenced_assertions[*j] = HashedUri::new(format!("{}X", e.url()), e.alg(), &e.hash());
+        }
+        Tamper::SignedDropHardBinding => p.referenced_assertions.retain(|e| !e.url().contains("c2pa.hash.")),
+        Tamper::SignedDuplicate { j } if *j < n => {
+            let e = p.referenced_assertions[*j].clone();
+            p.referenced_assertions.push(e);
+        }
+        _ => {}
+    }
+}
+
+fn refs_mut(v: &mut V) -> Result<&mut Vec<V>, String> {
+    match v.get_mut("signer_payload").and_then(|p| p.get_mut("referenced_assertions")) {
+        Some(V::A(a)) => Ok(a),
+        _ => Err("identity assertion has no signer_payload.referenced_assertions array".into()),
+    }
+}
+
+fn entry_url(e: &V) -> String {
+    e.get("url").and_then(|u| u.as_text()).unwrap_or("").to_string()
+}
+
+struct TamperHolder {
+    inner: X509CredentialHolder,
+    tamper: Tamper,
+}
+impl CredentialHolder for TamperHolder {
+    fn sig_type(&self) -> &'static str {
+        self.inner.sig_type()
+    }
+    fn reserve_size(&self) -> usize {
+        self.inner.reserve_size()
+    }
+    fn sign(&self, signer_payload: &SignerPayload) -> Result<Vec<u8>, IdentityBuilderError> {
+        if self.tamper.is_signed_variant() {
+            let mut p = signer_payload.clone();
+            edit_refs_struct(&self.tamper, &mut p);
+            self.inner.sign(&p)
+        } else {
+            self.inner.sign(signer_payload)
+        }
+    }
+}
+
+struct TamperDA {
+    inner: IdentityAssertionBuilder,
+    tamper: Tamper,
+    /// what the tamper step saw (for region attribution and space sizes)
+    seen: std::sync::Arc<Mutex<Option<Seen>>>,
+}
+
+#[derive(Clone, Debug, Default)]
+struct Seen {
+    sig: Vec<u8>,
+    pad1: usize,
+    pad2: usize,
+    refs: Vec<String>,
+    total: usize,
+    error: Option<String>,
+}
+
+fn bytes_of<'a>(v: &'a V, key: &str) -> Result<&'a Vec<u8>, String> {
+    match v.get(key) {
+        Some(V::B(b)) => Ok(b),
+        _ => Err(format!("identity assertion field {key} is not a byte string")),
+    }
+}
+
+/// Bring the assertion back to exactly `target` bytes by resizing the (all-zero unless deliberately dirtied) pads.
+fn repad(v: &V, target: usize) -> Result<Vec<u8>, String> {
+    let cur = cbor::encode(v);
+    if cur.len() == target {
+        return Ok(cur);
+    }
+    let p1 = bytes_of(v, "pad1")?.clone();
+    let p2 = match v.get("pad2") {
+        Some(V::B(b)) => b.clone(),
+        _ => return Err("no pad2 to adjust".into()),
+    };
+    // keep deliberately dirtied bytes: only grow/shrink at the end with zeros
+    for n2 in 0..64usize {
+        for n1_delta in -70i64..70 {
+            let n1 = p1.len() as i64 + (target as i64 - cur.len() as i64) + n1_delta;
+            if n1 < 0 {
+                continue;
+            }
+            let mut w = v.clone();
+            let mut a = p1.clone();
+            a.resize(n1 as usize, 0);
+            let mut b = p2.clone();
+            b.resize(n2.max(1), 0);
+            *w.get_mut("pad1").unwrap() = V::B(a);
+            *w.get_mut("pad2").unwrap() = V::B(b);
+            let e = cbor::encode(&w);
+            if e.len() == target {
+                return Ok(e);
+            }
+        }
+    }
+    Err(format!("cannot re-pad to {target} bytes (have {})", cur.len()))
+}
+
+fn apply(t: &Tamper, genuine: &[u8], claim: &PartialClaim, seen: &mut Seen) -> Result<Vec<u8>, String> {
+    let mut v = cbor::decode(genuine)?;
+    if cbor::encode(&v) != genuine {
+        return Err("identity assertion CBOR does not round-trip through the harness codec".into());
+    }
+    seen.total = genuine.len();
+    seen.sig = bytes_of(&v, "signature")?.clone();
+    seen.pad1 = bytes_of(&v, "pad1")?.len();
+    seen.pad2 = match v.get("pad2") {
+        Some(V::B(b)) => b.len(),
+        _ => 0,
+    };
+    seen.refs = refs_mut(&mut v)?.iter().map(entry_url).collect();
+    let set_key = |v: &mut V, path_payload: bool, key: &str| -> Result<(), String> {
+        let m = if path_payload { v.get_mut("signer_payload").ok_or("no signer_payload")? } else { v };
+        if let V::M(m) = m {
+            for (k, _) in m.iter_mut() {
+                if k.as_text() == Some(key) {
+                    let mut b = key.as_bytes().to_vec();
+                    let l = b.len();
+                    b[l - 1] = b'X';
+                    *k = V::T(b);
+                    return Ok(());
+                }
+            }
+        }
+        Err(format!("key {key} not found"))
+    };
+    match t {
+        Tamper::None => return Ok(genuine.to_vec()),
+        Tamper::ReencodeOnly => {}
+        Tamper::SigByte { k, x } => {
+            if let Some(V::B(s)) = v.get_mut("signature") {
+                if *k >= s.len() {
+                    return Err("signature byte index out of range".into());
+                }
+                s[*k] ^= *x;
+            }
+        }
+        Tamper::PayloadHashFlip { j } => {
+            let a = refs_mut(&mut v)?;
+            match a.get_mut(*j).and_then(|e| e.get_mut("hash")) {
+                Some(V::B(h)) if !h.is_empty() => h[0] ^= 1,
+                _ => return Err("no such referenced entry".into()),
+            }
+        }
+        Tamper::PayloadUrlSwap { j } => {
+            // point entry j at another assertion of the claim, keeping entry j's hash
+            let a = refs_mut(&mut v)?;
+            let have: Vec<String> = a.iter().map(entry_url).collect();
+            let other = claim.assertions().map(|h| h.url()).find(|u| !have.contains(u)).ok_or("no unreferenced assertion in the claim")?;
+            match a.get_mut(*j).and_then(|e| e.get_mut("url")) {
+                Some(u) => *u = V::text(&other),
+                None => return Err("no such referenced entry".into()),
+            }
+        }
+        Tamper::PayloadDrop { j } => {
+            let a = refs_mut(&mut v)?;
+            if *j >= a.len() {
+                return Err("no such referenced entry".into());
+            }
+            a.remove(*j);
+        }
+        Tamper::PayloadAddUnreferenced => {
+            let a = refs_mut(&mut v)?;
+            let have: Vec<String> = a.iter().map(entry_url).collect();
+            let other = claim.assertions().find(|h| !have.contains(&h.url())).ok_or("no unreferenced assertion in the claim")?;
+            let mut e = vec![(V::text("url"), V::text(&other.url()))];
+            if let Some(alg) = other.alg() {
+                e.push((V::text("alg"), V::text(&alg)));
+            }
+            e.push((V::text("hash"), V::B(other.hash())));
+            a.push(V::M(e));
+        }
+        Tamper::PayloadDuplicate { j } | Tamper::SignedDuplicate { j } => {
+            let a = refs_mut(&mut v)?;
+            let e = a.get(*j).cloned().ok_or("no such referenced entry")?;
+            a.push(e);
+        }
+        Tamper::PayloadSigType => match v.get_mut("signer_payload").and_then(|p| p.get_mut("sig_type")) {
+            Some(s) => *s = V::text("cawg.x509.cosf"),
+            None => return Err("no sig_type".into()),
+        },
+        Tamper::PayloadAddRole => {
+            if let Some(V::M(m)) = v.get_mut("signer_payload") {
+                m.push((V::text("role"), V::A(vec![V::text("cawg.editor")])));
+            }
+        }
+        Tamper::SignedHashFlip { j } => {
+            let a = refs_mut(&mut v)?;
+            match a.get_mut(*j).and_then(|e| e.get_mut("hash")) {
+                Some(V::B(h)) if !h.is_empty() => h[0] ^= 1,
+                _ => return Err("no such referenced entry".into()),
+            }
+        }
+        Tamper::SignedUrlUnknown { j } => {
+            let a = refs_mut(&mut v)?;
+            match a.get_mut(*j).and_then(|e| e.get_mut("url")) {
+                Some(V::T(u)) => u.push(b'X'),
+                _ => return Err("no such referenced entry".into()),
+            }
+        }
+        Tamper::SignedDropHardBinding => {
+            let a = refs_mut(&mut v)?;
+            a.retain(|e| !entry_url(e).contains("c2pa.hash."));
+        }
+        Tamper::Pad1Byte { j } => match v.get_mut("pad1") {
+            Some(V::B(p)) if *j < p.len() => p[*j] = 1,
+            _ => return Err("pad1 index out of range".into()),
+        },
+        Tamper::Pad2Byte { j } => match v.get_mut("pad2") {
+            Some(V::B(p)) if *j < p.len() => p[*j] = 1,
+            _ => return Err("pad2 index out of range".into()),
+        },
+        Tamper::PadShift { n } => {
+            let l1 = bytes_of(&v, "pad1")?.len();
+            if *n > l1 {
+                return Err("pad shift larger than pad1".into());
+            }
+            if let Some(V::B(p)) = v.get_mut("pad1") {
+                p.truncate(l1 - n);
+            }
+            if let Some(V::B(p)) = v.get_mut("pad2") {
+                p.resize(p.len() + n, 0);
+            }
+            // exact size restored by a final adjustment of pad2 only
+            let mut e = cbor::encode(&v);
+            let mut guard = 0;
+            while e.len() != genuine.len() && guard < 64 {
+                if let Some(V::B(p)) = v.get_mut("pad2") {
+                    if e.len() < genuine.len() {
+                        p.push(0);
+                    } else if !p.is_empty() {
+                        p.pop();
+                    }
+                }
+                e = cbor::encode(&v);
+                guard += 1;
+            }
+            if e.len() != genuine.len() {
+                return Err("pad shift cannot keep the size".into());
+            }
+            return Ok(e);
+        }
+        Tamper::RenameKey { key } => {
+            let in_payload = matches!(*key, "sig_type" | "referenced_assertions");
+            set_key(&mut v, in_payload, key)?;
+        }
+        Tamper::RetypeSignatureAsText => {
+            let s = bytes_of(&v, "signature")?.clone();
+            *v.get_mut("signature").unwrap() = V::T(s);
+        }
+        Tamper::RetypePad1AsText => {
+            let s = bytes_of(&v, "pad1")?.clone();
+            *v.get_mut("pad1").unwrap() = V::T(s);
+        }
+    }
+    repad(&v, genuine.len())
+}
+
+impl DynamicAssertion for TamperDA {
+    fn label(&self) -> String {
+        self.inner.label()
+    }
+    fn reserve_size(&self) -> c2pa::Result<usize> {
+        self.inner.reserve_size()
+    }
+    fn content(&self, label: &str, size: Option<usize>, claim: &PartialClaim) -> c2pa::Result<DynamicAssertionContent> {
+        let genuine = match self.inner.content(label, size, claim)? {
+            DynamicAssertionContent::Cbor(b) => b,
+            _ => return Err(c2pa::Error::BadParam("identity assertion is not CBOR".into())),
+        };
+        let mut seen = Seen::default();
+        let out = match apply(&self.tamper, &genuine, claim, &mut seen) {
+            Ok(o) => o,
+            Err(e) => {
+                seen.error = Some(e.clone());
+                *self.seen.lock().unwrap() = Some(seen);
+                return Err(c2pa::Error::BadParam(format!("harness tamper step: {e}")));
+            }
+        };
+        *self.seen.lock().unwrap() = Some(seen);
+        Ok(DynamicAssertionContent::Cbor(out))
+    }
+}
+
+struct TamperSigner {
+    c2pa: Box<dyn Signer + Send + Sync>,
+    refs: Vec<&'static str>,
+    tamper: Tamper,
+    seen: std::sync::Arc<Mutex<Option<Seen>>>,
+}
+impl Signer for TamperSigner {
+    fn sign(&self, data: &[u8]) -> c2pa::Result<Vec<u8>> {
+        self.c2pa.sign(data)
+    }
+    fn alg(&self) -> SigningAlg {
+        self.c2pa.alg()
+    }
+    fn certs(&self) -> c2pa::Result<Vec<Vec<u8>>> {
+        self.c2pa.certs()
+    }
+    fn reserve_size(&self) -> usize {
+        self.c2pa.reserve_size()
+    }
+    fn dynamic_assertions(&self) -> Vec<Box<dyn DynamicAssertion>> {
+        let mut iab = IdentityAssertionBuilder::for_credential_holder(TamperHolder { inner: identity_holder(), tamper: self.tamper.clone() });
+        if !self.refs.is_empty() {
+            iab.add_referenced_assertions(&self.refs);
+        }
+        vec![Box::new(TamperDA { inner: iab, tamper: self.tamper.clone(), seen: self.seen.clone() })]
+    }
+}
+
+fn refs_of(mask: u32) -> Vec<&'static str> {
+    (0..3).filter(|i| mask >> i & 1 == 1).map(|i| REFS[i]).collect()
+}
+
+// ---------------------------------------------------------------------------------------------------
+// observation
+// ---------------------------------------------------------------------------------------------------
+fn block_on<F: std::future::Future>(f: F) -> F::Output {
+    let mut f = std::pin::pin!(f);
+    let mut cx = std::task::Context::from_waker(std::task::Waker::noop());
+    loop {
+        if let std::task::Poll::Ready(v) = f.as_mut().poll(&mut cx) {
+            return v;
+        }
+        std::thread::yield_now();
+    }
+}
+
+#[derive(Debug, Clone)]
+struct Obs {
+    path: &'static str,
+    /// Valid | Trusted | Invalid | Err(..) | PANIC ..
+    state: String,
+    cawg_success: Vec<String>,
+    cawg_failure: Vec<String>,
+    other_failure: Vec<String>,
+}
+
+fn codes(v: &Value, bucket: &str, out: &mut Vec<String>, inside: bool) {
+    match v {
+        Value::Object(m) => {
+            if inside {
+                if let Some(c) = m.get("code").and_then(|c| c.as_str()) {
+                    if !out.iter().any(|x| x == c) {
+                        out.push(c.to_string());
+                    }
+                }
+            }
+            for (k, x) in m {
+                codes(x, bucket, out, inside || k == bucket);
+            }
+        }
+        Value::Array(a) => a.iter().for_each(|x| codes(x, bucket, out, inside)),
+        _ => {}
+    }
+}
+
+fn summarise(path: &'static str, r: &Reader) -> Obs {
+    let vr = r.validation_results().and_then(|v| serde_json::to_value(v).ok()).unwrap_or(Value::Null);
+    let (mut s, mut f) = (vec![], vec![]);
+    codes(&vr, "success", &mut s, false);
+    codes(&vr, "failure", &mut f, false);
+    s.sort();
+    f.sort();
+    Obs {
+        path,
+        state: sdk::state_name(r.validation_state()).to_string(),
+        cawg_success: s.into_iter().filter(|c| c.starts_with("cawg.")).collect(),
+        cawg_failure: f.iter().filter(|c| c.starts_with("cawg.")).cloned().collect(),
+        other_failure: f.into_iter().filter(|c| !c.starts_with("cawg.")).collect(),
+    }
+}
+
+/// Reader settings: the repository's test roots are CAWG trust anchors, so that an untampered identity assertion has no cawg.* failure at all.
+fn read_settings_with(decode: bool) -> String {
+    let mut v: Value = serde_json::from_str(&read_settings()).unwrap_or(Value::Null);
+    v["core"] = json!({"decode_identity_assertions": decode});
+    v.to_string()
+}
+
+fn read_settings() -> String {
+    // Context::with_settings REPLACES the settings, so the kit's base settings are merged in here
+    let base: Value = serde_json::from_str(sdk::BASE_SETTINGS).unwrap_or(Value::Null);
+    let anchors = String::from_utf8_lossy(&sdk::fixture("certs/trust/test_cert_root_bundle.pem")).into_owned();
+    let cfg = String::from_utf8_lossy(&sdk::fixture("certs/trust/store.cfg")).into_owned();
+    let mut v = base;
+    v["cawg_trust"] = json!({"verify_trust_list": true, "trust_anchors": anchors, "trust_config": cfg});
+    v.to_string()
+}
+
+fn observe(bytes: &[u8]) -> Vec<Obs> {
+    let rs = read_settings();
+    let fail = |path: &'static str, s: String| Obs { path, state: s, cawg_success: vec![], cawg_failure: vec![], other_failure: vec![] };
+    let mut out = vec![];
+    // path 1: default reader (identity assertions validated while the manifest is parsed)
+    out.push(match par::guard(|| Reader::from_context(sdk::ctx_with(&[&rs])).with_stream(MIME, Cursor::new(bytes))) {
+        Err(p) => fail("reader", format!("PANIC {p}")),
+        Ok(Err(e)) => fail("reader", format!("Err({})", sdk::err_kind(&e))),
+        Ok(Ok(r)) => summarise("reader", &r),
+    });
+    // path 2: identity decoding off, then the CAWG post validator
+    out.push(
+        match par::guard(|| -> c2pa::Result<Reader> {
+            let ctx = sdk::ctx_with(&[&read_settings_with(false)]).into_shared();
+            let mut r = Reader::from_shared_context(&ctx).with_stream(MIME, Cursor::new(bytes))?;
+            let validator = CawgValidator::new(&ctx);
+            block_on(r.post_validate_async(&validator))?;
+            Ok(r)
+        }) {
+            Err(p) => fail("post_validate", format!("PANIC {p}")),
+            Ok(Err(e)) => fail("post_validate", format!("Err({})", sdk::err_kind(&e))),
+            Ok(Ok(r)) => summarise("post_validate", &r),
+        },
+    );
+    out
+}
+
+struct Outcome {
+    sign_error: Option<String>,
+    obs: Vec<Obs>,
+    seen: Option<Seen>,
+}
+
+fn execute(mask: u32, tamper: &Tamper, via_public_constructor: bool, jpeg: &[u8]) -> Outcome {
+    let seen = std::sync::Arc::new(Mutex::new(None));
+    let signed = par::guard(|| -> c2pa::Result<Vec<u8>> {
+        let mut b = Builder::from_context(sdk::ctx()).with_definition(definition())?;
+        b.set_intent(BuilderIntent::Create(c2pa::DigitalSourceType::Empty));
+        let mut dst = Cursor::new(Vec::new());
+        if via_public_constructor {
+            let s = c2pa::create_signer::from_x509_identity(sdk::fixture_signer(C2PA_ALG), sdk::fixture_signer(ID_ALG), &refs_of(mask), &[]);
+            b.sign(s.as_ref(), MIME, &mut Cursor::new(jpeg), &mut dst)?;
+        } else {
+            let s = TamperSigner { c2pa: sdk::fixture_signer(C2PA_ALG), refs: refs_of(mask), tamper: tamper.clone(), seen: seen.clone() };
+            b.sign(&s, MIME, &mut Cursor::new(jpeg), &mut dst)?;
+        }
+        Ok(dst.into_inner())
+    });
+    let seen_v = seen.lock().unwrap().clone();
+    match signed {
+        Err(p) => Outcome { sign_error: Some(format!("PANIC {p}")), obs: vec![], seen: seen_v },
+        Ok(Err(e)) => Outcome { sign_error: Some(format!("{e:?}")), obs: vec![], seen: seen_v },
+        Ok(Ok(bytes)) => Outcome { sign_error: None, obs: observe(&bytes), seen: seen_v },
+    }
+}
+
+/// Region of byte k of a COSE_Sign1 blob, from the harness CBOR span walker.
+fn sig_region(sig: &[u8], k: usize) -> String {
+    match cbor::spans(sig, true) {
+        Err(_) => "unparsed".into(),
+        Ok(sp) => {
+            let p = sp.iter().find(|(s, e, _)| *s <= k && k < *e).map(|x| x.2.clone()).unwrap_or_else(|| "gap".into());
+            // COSE_Sign1 = [protected, unprotected, payload, signature]
+            let top = if p.starts_with("[0]") {
+                "protected"
+            } else if p.starts_with("[1]") {
+                "unprotected"
+            } else if p.starts_with("[2]") {
+                "payload"
+            } else if p.starts_with("[3]") {
+                "signature"
+            } else {
+                "envelope"
+            };
+            let rest: String = p.chars().skip(3).collect();
+            // drop array indices inside certificates etc. to keep keys stable
+            let rest: String = rest.split('[').next().unwrap_or("").to_string();
+            format!("{top}{rest}")
+        }
+    }
+}
+
+fn judge(run: &Run, mask: u32, tamper: &Tamper, o: &Outcome, case: &Value) {
+    let cls = tamper.class();
+    if let Some(e) = &o.sign_error {
+        if e.contains("harness tamper step") || matches!(tamper, Tamper::None | Tamper::ReencodeOnly) {
+            kit::ev::machinery(format!("C33: signing failed for mask {mask} tamper {:?}: {e}", tamper));
+        }
+        // the SDK refused to sign the tampered assertion: nothing tampered reaches a reader
+        run.outcome(format!("{cls}:sign-refused"));
+        return;
+    }
+    let expect_failure = !matches!(tamper, Tamper::None | Tamper::ReencodeOnly | Tamper::PadShift { .. });
+    let region = match (tamper, &o.seen) {
+        (Tamper::SigByte { k, .. }, Some(s)) => sig_region(&s.sig, *k),
+        _ => String::new(),
+    };
+    for ob in &o.obs {
+        run.outcome(format!("{cls}/{}:{}:{}", ob.path, ob.state.split(' ').next().unwrap_or(""), if ob.cawg_failure.is_empty() { if ob.cawg_success.is_empty() { "silent" } else { "cawg-ok" } } else { "cawg-failure" }));
+        if ob.state != "Valid" && ob.state != "Trusted" {
+            if matches!(tamper, Tamper::None | Tamper::ReencodeOnly) {
+                kit::ev::machinery(format!("C33: untampered seed (mask {mask}, {:?}) reads {} via {} {:?}", tamper, ob.state, ob.path, ob.other_failure));
+            }
+            let other: Vec<&String> = ob.other_failure.iter().filter(|c| *c != "signingCredential.untrusted").collect();
+            run.violation(
+                format!(
+                    "c2pa-not-valid cawg-codes={} other-codes={} state={} path={} tamper={cls}{}",
+                    if ob.cawg_failure.is_empty() { "none".to_string() } else { ob.cawg_failure.join(",") },
+                    if other.is_empty() { "none".to_string() } else { other.iter().map(|s| s.as_str()).collect::<Vec<_>>().join(",") },
+                    ob.state.split(' ').next().unwrap_or(""),
+                    ob.path,
+                    if region.is_empty() { String::new() } else { format!(" region={region}") }
+                ),
+                format!("identity assertion tampering {:?} (C2PA manifest untouched and signed afterwards) makes the manifest read {} via {}; failures {:?} {:?}", tamper, ob.state, ob.path, ob.other_failure, ob.cawg_failure),
+                case.clone(),
+            );
+            continue;
+        }
+        if !expect_failure {
+            if matches!(tamper, Tamper::None | Tamper::ReencodeOnly) {
+                if ob.cawg_success.is_empty() || !ob.cawg_failure.is_empty() {
+                    if matches!(tamper, Tamper::ReencodeOnly) {
+                        kit::ev::machinery(format!("C33: harness re-encoding control fails: {:?}", ob));
+                    }
+                    run.violation(
+                        format!("untampered-not-validated path={} refs={} failure={}", ob.path, mask.count_ones(), ob.cawg_failure.join(",")),
+                        format!("untampered identity assertion over {:?}: cawg success {:?}, cawg failure {:?} via {}", refs_of(mask), ob.cawg_success, ob.cawg_failure, ob.path),
+                        case.clone(),
+                    );
+                }
+            }
+            continue;
+        }
+        if ob.cawg_failure.is_empty() {
+            run.violation(
+                format!("unreported tamper={cls}{} path={} success={}", if region.is_empty() { String::new() } else { format!(" region={region}") }, ob.path, ob.cawg_success.join(",")),
+                format!("tampering {:?} is not reported with any cawg.* failure code via {} (cawg success codes: {:?}, other failures: {:?})", tamper, ob.path, ob.cawg_success, ob.other_failure),
+                case.clone(),
+            );
+        }
+    }
+}
+
+pub fn run(run: &Run, replay: Option<&Value>) {
+    run.rule(
+        "identity assertion over every subset of 3 referenceable assertions (hard binding always referenced); tampering alphabet applied before C2PA signing: every byte k of the \
+         identity signature XOR {01} (quick: all-referenced subset; thorough: every subset, and XOR {80,FF} too for the empty and the full subset); every referenced entry j x {hash flip, url swap, drop, duplicate}, add entry, \
+         sig_type, role (payload edited after identity signing); validly signed altered payloads {hash flip j, unknown url j, no hard binding, duplicate j}; every byte of pad1 (quick: first 64, last 64, every 16th; thorough: all, for the empty and the full subset) and pad2 set \
+         to 01; structural damage (5 key renames, 2 retypings); zero-padding redistribution (recorded only). Each output read by the default Reader and by post_validate_async(CawgValidator). \
+         non-trivial = tampered cases that were signed and read.",
+    );
+    run.assume("a re-distribution of all-zero padding is not a 'change to the padding' a validator could notice (there is no reference copy): recorded, no expectation");
+    run.assume("C2PA signer and identity signer: the ed25519 credential from the repository's test credentials; readers are configured with the repository's test roots as CAWG trust anchors (cawg_trust.trust_anchors), so the untampered assertion carries no cawg.* failure");
+    let jpeg = kit::assets::jpeg();
+
+    if let Some(c) = replay {
+        let mask = c["mask"].as_u64().unwrap_or(7) as u32;
+        let t = Tamper::from_json(&c["tamper"]).unwrap_or_else(|| kit::ev::machinery("C33 replay: unreadable tamper"));
+        let o = execute(mask, &t, c["public_constructor"].as_bool().unwrap_or(false), &jpeg);
+        run.eval();
+        println!("replay mask={mask} tamper={:?}: sign_error={:?}", t, o.sign_error);
+        for ob in &o.obs {
+            println!("  {:?}", ob);
+        }
+        judge(run, mask, &t, &o, c);
+        return;
+    }
+
+    // ---- untampered: public constructor and harness flow, every subset; determinism ---------------------
+    let mut base_seen: Option<Seen> = None;
+    for mask in 0..8u32 {
+        for public in [true, false] {
+            let case = json!({"mask":mask,"tamper":{"t":"none"},"public_constructor":public});
+            let o = execute(mask, &Tamper::None, public, &jpeg);
+            run.eval();
+            judge(run, mask, &Tamper::None, &o, &case);
+            if !public && mask == 7 {
+                let o2 = execute(mask, &Tamper::None, public, &jpeg);
+                run.eval();
+                let sig = |o: &Outcome| o.obs.iter().map(|b| format!("{}:{}:{:?}:{:?}", b.path, b.state, b.cawg_success, b.cawg_failure)).collect::<Vec<_>>();
+                if sig(&o) != sig(&o2) {
+                    kit::ev::machinery(format!("C33: untampered case is not deterministic: {:?} vs {:?}", sig(&o), sig(&o2)));
+                }
+                run.sample(json!({"mask":mask,"tamper":"none","observations": o.obs.iter().map(|b| json!({"path":b.path,"state":b.state,"cawg_success":b.cawg_success,"cawg_failure":b.cawg_failure})).collect::<Vec<_>>() }));
+                base_seen = o.seen.clone();
+            }
+        }
+        let case = json!({"mask":mask,"tamper":{"t":"reencode-only"}});
+        let o = execute(mask, &Tamper::ReencodeOnly, false, &jpeg);
+        run.eval();
+        judge(run, mask, &Tamper::ReencodeOnly, &o, &case);
+    }
+    run.space("untampered: subsets x {from_x509_identity, harness flow, harness re-encoding control}", 24, true);
+    let seen = base_seen.unwrap_or_else(|| kit::ev::machinery("C33: tamper step never saw the identity assertion"));
+    run.sample(json!({"identity_signature_bytes": seen.sig.len(), "pad1": seen.pad1, "pad2": seen.pad2, "assertion_bytes": seen.total, "referenced": seen.refs}));
+
+    // ---- tampered ------------------------------------------------------------------------------------------
+    let thorough = run.tier.is_thorough();
+    // the SDK serialises signature operations behind one process-wide mutex, so this sweep is effectively sequential (~25 ms per case)
+    let masks: Vec<u32> = if thorough { (0..8).collect() } else { vec![7] };
+    let mut cases: Vec<(u32, Tamper)> = vec![];
+    for &m in &masks {
+        let xors: Vec<u8> = if thorough && (m == 0 || m == 7) { vec![0x01, 0x80, 0xFF] } else { vec![0x01] };
+        for &x in &xors {
+            for k in 0..seen.sig.len() {
+                cases.push((m, Tamper::SigByte { k, x }));
+            }
+        }
+    }
+    run.space("identity signature: every byte k x xor values x subsets", cases.len() as u64, true);
+    let n0 = cases.len();
+    for mask in 0..8u32 {
+        let n_refs = 1 + mask.count_ones() as usize; // hard binding + selected
+        for j in 0..n_refs {
+            cases.push((mask, Tamper::PayloadHashFlip { j }));
+            cases.push((mask, Tamper::PayloadUrlSwap { j }));
+            cases.push((mask, Tamper::PayloadDrop { j }));
+            cases.push((mask, Tamper::PayloadDuplicate { j }));
+            cases.push((mask, Tamper::SignedHashFlip { j }));
+            cases.push((mask, Tamper::SignedUrlUnknown { j }));
+            cases.push((mask, Tamper::SignedDuplicate { j }));
+        }
+        cases.push((mask, Tamper::PayloadAddUnreferenced));
+        cases.push((mask, Tamper::PayloadSigType));
+        cases.push((mask, Tamper::PayloadAddRole));
+        cases.push((mask, Tamper::SignedDropHardBinding));
+        for key in ["signature", "signer_payload", "sig_type", "referenced_assertions", "pad1"] {
+            cases.push((mask, Tamper::RenameKey { key }));
+        }
+        cases.push((mask, Tamper::RetypeSignatureAsText));
+        cases.push((mask, Tamper::RetypePad1AsText));
+    }
+    run.space("signer payload edits, validly signed altered payloads, structural damage: every entry x every subset", (cases.len() - n0) as u64, true);
+    let n1 = cases.len();
+    let pad_masks: Vec<u32> = if thorough { vec![0, 7] } else { vec![7] };
+    for &m in &pad_masks {
+        // pad sizes depend on the subset only through the payload length; enumerate every byte of what the all-subset seed showed,
+        // indices beyond the actual pad of another subset are harness errors and reported as such
+        let (p1, p2) = if m == 7 { (seen.pad1, seen.pad2) } else { pad_sizes(m, &jpeg) };
+        for j in 0..p1 {
+            // quick: the first and last 64 bytes of pad1 and every 16th in between (all bytes are handled by one `all zero` test)
+            if thorough || j < 64 || j + 64 >= p1 || j % 16 == 0 {
+                cases.push((m, Tamper::Pad1Byte { j }));
+            }
+        }
+        for j in 0..p2 {
+            cases.push((m, Tamper::Pad2Byte { j }));
+        }
+        for n in [1usize, 2, 23, 24, 255, 256] {
+            if n <= p1 {
+                cases.push((m, Tamper::PadShift { n }));
+            }
+        }
+    }
+    run.space("padding: bytes of pad1 (quick: first/last 64 + every 16th; thorough: all) and all of pad2 set to 01; zero-padding redistribution by {1,2,23,24,255,256}", (cases.len() - n1) as u64, true);
+
+    par::for_each(&cases, |(mask, t)| {
+        let case = json!({"mask":mask,"tamper":t.to_json()});
+        let o = execute(*mask, t, false, &jpeg);
+        run.eval();
+        if o.sign_error.is_none() {
+            run.nontrivial(format!("{mask}/{}", t.to_json()));
+        }
+        judge(run, *mask, t, &o, &case);
+    });
+}
+
+fn pad_sizes(mask: u32, jpeg: &[u8]) -> (usize, usize) {
+    let o = execute(mask, &Tamper::None, false, jpeg);
+    match o.seen {
+        Some(s) => (s.pad1, s.pad2),
+        None => kit::ev::machinery("C33: cannot determine pad sizes"),
+    }
 }
